@@ -268,7 +268,7 @@ impl Model for BusModel {
         let mut acts = s.witness.clone();
         acts.push(a);
         let case = case_json(&acts, 1000);
-        guard::enter(&case.to_string());
+        let _guard_scope = guard::scoped(&case.to_string());
         TRANS.fetch_add(1, Relaxed);
         match run_history(&acts, 1000, acts.len() - 1) {
             Ok((r, pend, b)) => Some(St { key: (r.lags(), pend, b), witness: acts, bad: false }),
@@ -287,7 +287,7 @@ impl Model for BusModel {
 fn main() {
     let ctx: &'static Ctx = Ctx::leak("C13", "release");
     if let Some(v) = ctx.replay_case() {
-        guard::enter(&v.to_string());
+        let _guard_scope = guard::scoped(&v.to_string());
         if v["sys"] == "bus_soak" {
             let acts = soak_history(v["steps"].as_u64().unwrap_or(1000) as usize, v["max_live"].as_u64().unwrap_or(3) as usize);
             ctx.finish_replay(catch(|| run_history(&acts, acts.len() + 10, 0)).unwrap_or_else(|p| Err(("panic".into(), p))).err().map(|e| e.1.chars().rev().take(400).collect::<String>().chars().rev().collect()));
@@ -336,7 +336,7 @@ fn main() {
         .map(|(pre, src_len)| {
             let mut counts = (0u64, 0u64);
             let mut fps = Vec::new();
-            guard::enter(&case_json(pre, *src_len).to_string());
+            let _guard_scope = guard::scoped(&case_json(pre, *src_len).to_string());
             match run_history(pre, *src_len, 0) {
                 Ok((r, _, _)) => {
                     counts.0 += 1;
@@ -361,7 +361,7 @@ fn main() {
     // soak probes
     let soak_steps = ctx.tier.pick(20_000, 200_000);
     for max_live in [1usize, 2, 3, 6] {
-        guard::enter(&json!({"sys":"bus_soak","max_live":max_live,"steps":soak_steps}).to_string());
+        let _guard_scope = guard::scoped(&json!({"sys":"bus_soak","max_live":max_live,"steps":soak_steps}).to_string());
         let acts = soak_history(soak_steps, max_live);
         ctx.add_evals(soak_steps as u64);
         if let Err((k, m)) = run_history(&acts, acts.len() + 10, 0) {
@@ -386,7 +386,7 @@ fn main() {
                 }
             }
             let case = json!({"sys":"bus_deep_lag","k":k,"laggards":laggards});
-            guard::enter(&case.to_string());
+            let _guard_scope = guard::scoped(&case.to_string());
             ctx.add_evals(acts.len() as u64);
             if let Err((key, m)) = run_history(&acts, acts.len() + 10, 0) {
                 let short: String = m.chars().rev().take(300).collect::<String>().chars().rev().collect();
